@@ -26,7 +26,8 @@ CHECKS = {
             "(totals of stsz/stts/ctts/stsc x chunk offsets = samples written, stss increasing and in range), all chunk extents lie inside the mdat payload "
             "and are pairwise disjoint and cover it exactly, mdhd duration = sum, tkhd = floor(mdhd*movie_ts/track_ts) saturated, mvhd = max, versions widen "
             "when needed. On every run the extracted validator iso_check_file (Iso/IsoFile.v, shares no code with the library model) judges the REAL "
-            "muxer's bytes: top-level tiling, container sizes, table consistency, extents, durations.",
+            "muxer's bytes: top-level tiling, container sizes, table consistency, extents, durations. Props/C02Bytes.v (C02_mux_bytes_iso_valid) is the composed byte-level theorem: "
+            "iso_check_file accepts the muxer model's complete output bytes with the history's expectation.",
             "Coq proof over the writer model + independent extracted validator on real output",
             "Durations whose conversion exceeds 2^64-1 cannot be represented by the format; the validator accepts only the saturated value there. " + TB),
     "C03": ("proof",
